@@ -326,7 +326,7 @@ func C09(tier string) int {
 		}
 	}
 	nScripts := len(c09Scripts(tier))
-	run.Rule = fmt.Sprintf("SERVER HALF: explicit-state BFS to a fixpoint (engine of C03) over the alphabet {EHLO, NOOP, MAIL, RSET, STARTTLS, AUTH without argument, %d scripted AUTH exchanges} x 12 configurations (TLS {plaintext, STARTTLS available, implicit TLS} x AllowInsecureAuth x backend {AuthSession, plain}). AUTH exchanges: mechanisms of 1..3 rounds (+ empty/binary challenges, lower-case name, unknown mechanism) x initial response {absent, values, '=', bad base64} x per later round {values, '*', bad base64}; values in {good, bad, empty, NUL, 0xFF 0xFE, 57+ octets}. A recording sasl.Server logs every Next argument (nil vs empty distinguished); each transition is compared with the reference model: not permitted => 5xx and ZERO octets to the mechanism, needs greeting, second success impossible (503), STARTTLS erases it, failed/malformed/cancelled => unauthenticated and in command mode, 334 carries exactly the challenge, mechanism input == base64-decoding of what was sent. CLIENT HALF: scripted sasl.Client x server mechanisms of 1..3 rounds x challenge kinds x responses x {success, server failure, client error at round k, Start error}, real client <-> real server: both sides log exactly the other's octets; client error => '*' sent, connection usable, still unauthenticated (a fresh AUTH succeeds); result == server's final reply; after success a second Auth gets 503.", nScripts)
+	run.Rule = fmt.Sprintf("SERVER HALF: explicit-state BFS to a fixpoint (engine of C03) over the alphabet {EHLO, NOOP, MAIL, RSET, STARTTLS, AUTH without argument, %d scripted AUTH exchanges} x 12 configurations (TLS {plaintext, STARTTLS available, implicit TLS} x AllowInsecureAuth x backend {AuthSession, plain}). AUTH exchanges: mechanisms of 1..3 rounds (+ empty/binary challenges, lower-case name, unknown mechanism) x initial response {absent, values, '=', bad base64} x per later round {values, '*', bad base64}; values in {good, bad, empty, NUL, 0xFF 0xFE, 57+ octets}. A recording sasl.Server logs every Next argument (nil vs empty distinguished); each transition is compared with the reference model: not permitted => 5xx and ZERO octets to the mechanism, needs greeting, second success impossible (503), STARTTLS erases it, failed/malformed/cancelled => unauthenticated and in command mode, 334 carries exactly the challenge, mechanism input == base64-decoding of what was sent. FAILED HANDSHAKE: STARTTLS answered 220, then the client sends octets that are not a TLS handshake (5 kinds: text, a command, a broken handshake record, an alert, an SSLv2-style header) x AllowInsecureAuth x greeted/not: the connection is still plaintext - AUTH not advertised nor accepted, zero octets to the mechanism, no TLS state visible to NewSession, STARTTLS still offered. CLIENT HALF: scripted sasl.Client x server mechanisms of 1..3 rounds x challenge kinds x responses x {success, server failure, client error at round k, Start error}, real client <-> real server: both sides log exactly the other's octets; client error => '*' sent, connection usable, still unauthenticated (a fresh AUTH succeeds); result == server's final reply; after success a second Auth gets 503.", nScripts)
 	run.Assumptions = []string{"the insecure-AUTH reply code (523) is not fixed by the statement: any 5xx is accepted", "bad base64 may be answered 4xx or 5xx"}
 	for _, pc := range cfgs {
 		alpha := c09Alphabet(pc, tier)
@@ -348,6 +348,7 @@ func C09(tier string) int {
 		run.State(int64(st.States))
 		fmt.Printf("  config %+v: states=%d transitions=%d depth=%d\n", pc, st.States, st.Transitions, st.MaxDepth)
 	}
+	c09FailedHandshakes(run)
 	// client half
 	var cases []C09ClientCase
 	vals := c09Values
@@ -395,4 +396,125 @@ func C09(tier string) int {
 		}
 	})
 	return run.Finish()
+}
+
+// ---- a STARTTLS whose handshake fails ---------------------------------------------------------------
+
+type C09FailedHandshake struct {
+	Garbage  []byte `json:"garbage"` // octets the client sends instead of a ClientHello
+	Insecure bool   `json:"insecure_auth"`
+	Greeted  bool   `json:"greeted"`
+}
+
+// evalC09FailedHandshake: the client answers the 220 with octets that are not a TLS handshake. The
+// connection stays plaintext; nothing that TLS would permit may become available.
+func evalC09FailedHandshake(c C09FailedHandshake) *h.Finding {
+	var f *h.Finding
+	desc := fmt.Sprintf("STARTTLS answered with %q instead of a handshake (AllowInsecureAuth=%t)", c.Garbage, c.Insecure)
+	pc := ref.PConfig{TLSAvail: true, AllowInsecureAuth: c.Insecure, AuthBackend: true}
+	cfg, be := serverFor(pc)
+	cfg.RequireTLS = true
+	fail := func(sig, format string, a ...interface{}) {
+		if f == nil {
+			f = h.F(sig, desc+": "+format, a...)
+		}
+	}
+	leak, pan := h.Bubble(func() {
+		live := h.NewLive(cfg, be, false)
+		live.Greeting()
+		one := func(s string) ref.Reply {
+			out := live.Send([]byte(s + "\r\n"))
+			rs, err := ref.ParseReplies(out)
+			if err != nil || len(rs) != 1 {
+				fail("c09-fh-wire", "%q answered with %q (%v)", s, out, err)
+				return ref.Reply{}
+			}
+			return rs[0]
+		}
+		if c.Greeted {
+			one("EHLO before.example")
+		}
+		if r := one("STARTTLS"); r.Code != 220 {
+			fail("c09-fh-starttls", "STARTTLS answered %s", r.String())
+			return
+		}
+		out := live.Send(c.Garbage) // plaintext, below any TLS layer
+		// the TLS library may put an alert record on the wire before the server's plaintext reply
+		for len(out) >= 5 && out[0] == 0x15 && out[1] == 0x03 {
+			n := 5 + int(out[3])<<8 + int(out[4])
+			if n > len(out) {
+				break
+			}
+			out = out[n:]
+		}
+		if rs, err := ref.ParseReplies(out); err != nil || len(rs) == 0 || rs[0].Class() != 5 {
+			fail("c09-fh-no-error-reply", "the failed handshake was answered with %q", out)
+		}
+		r := one("EHLO after.example")
+		caps := strings.Join(r.Lines, "|")
+		if !c.Insecure && strings.Contains(caps, "AUTH") {
+			fail("c09-auth-advertised-insecure", "the handshake failed, the connection is plaintext, yet EHLO advertises %q", r.Lines)
+		}
+		if strings.Contains(caps, "REQUIRETLS") {
+			fail("c09-fh-requiretls", "REQUIRETLS advertised on a plaintext connection: %q", r.Lines)
+		}
+		if !strings.Contains(caps, "STARTTLS") {
+			fail("c09-fh-starttls-gone", "TLS is not active, yet STARTTLS is no longer offered: %q", r.Lines)
+		}
+		ar := one("AUTH ONE Z29vZA==")
+		nexts := 0
+		tlsSessions := 0
+		for _, e := range be.Trace() {
+			if e.Kind == "Next" {
+				nexts++
+			}
+			if e.Kind == "NewSession" && e.TLS {
+				tlsSessions++
+			}
+		}
+		if !c.Insecure && (ar.Class() == 2 || ar.Class() == 3 || nexts > 0) {
+			fail("c09-insecure-octets", "AUTH on the still-plaintext connection was answered %s and the mechanism received %d responses", ar.String(), nexts)
+		}
+		if c.Insecure && ar.Code != 235 {
+			fail("c09-fh-auth", "AllowInsecureAuth is set but AUTH was answered %s", ar.String())
+		}
+		if tlsSessions > 0 {
+			fail("c09-fh-tls-state", "NewSession saw a TLS connection state although no handshake ever completed")
+		}
+		live.Hangup(h.TermEOF)
+	})
+	if f == nil && pan != "" {
+		f = h.F("c09-harness-panic", "%s: %s", desc, pan)
+	}
+	if f == nil && leak != "" {
+		f = h.F("c09-goroutine-leak", "%s: %.300s", desc, leak)
+	}
+	return f
+}
+
+func init() { h.RegisterReplayer("c09-failed-handshake", evalC09FailedHandshake) }
+
+func c09FailedHandshakes(run *h.Run) {
+	var cases []C09FailedHandshake
+	for _, g := range [][]byte{[]byte("hello"), []byte("NOOP\r"), {0x16, 0x03, 0x01, 0x00, 0x04, 0xff, 0x00, 0x00, 0x00}, {0x15, 0x03, 0x03, 0x00, 0x02, 0x02, 0x28}, {0x80, 0x2e, 0x01, 0x00, 0x02}} {
+		for _, ins := range []bool{false, true} {
+			for _, gr := range []bool{true, false} {
+				cases = append(cases, C09FailedHandshake{Garbage: g, Insecure: ins, Greeted: gr})
+			}
+		}
+	}
+	h.ParallelFor(len(cases), func(i int) {
+		c := cases[i]
+		f := evalC09FailedHandshake(c)
+		run.Eval(true)
+		run.Transition(1)
+		run.Trace(1)
+		if f != nil {
+			run.Violate("c09-failed-handshake", c, f, func() *h.Finding { return evalC09FailedHandshake(c) })
+			run.Outcome("violation:" + f.Sig)
+		} else {
+			run.Outcome("failed-handshake-ok")
+		}
+	})
+	run.Sample("failed-handshake", 1, cases[0])
 }
